@@ -1,4 +1,4 @@
 SPECIFICATION Spec
-CONSTANTS MaxViews = 32 MaxSeg = 2
+CONSTANTS MaxViews = 24 MaxSeg = 2
 INVARIANTS InvT1 InvT2 InvPartition InvAsymSwapNeverPartition InvCount InvBalancedNoViewSym InvBalancedEdges
 CHECK_DEADLOCK FALSE
